@@ -176,7 +176,7 @@ func runCase(t *rapid.T) {
 		t.Fatalf("node: %v", err)
 	}
 	cfg.GenesisTS = n0.Cfg.GenesisTS
-	opts := node.GenOpts{MaxTxs: 3, AllowChange: true, AllowAgg: true, AllowStandby: true}
+	opts := node.GenOpts{MaxTxs: 3, AllowChange: true, AllowAgg: true, AllowStandby: true, AllowRotate: true}
 	nSteps := rapid.IntRange(3, 12).Draw(t, "steps")
 	var steps []step
 	var dumps []map[string]string // dumps[i] = state before step i; dumps[len] = final
